@@ -325,6 +325,15 @@ pub(crate) fn encode_internal<W: Write, S: Borrow<Schema> + Debug>(
                             record_namespace,
                             writer,
                         )?;
+                    } else if schema_field.is_nullable() {
+                        // Validation accepts a record without its nullable fields, they are null
+                        written_bytes += encode_internal(
+                            &Value::Null,
+                            &schema_field.schema,
+                            names,
+                            record_namespace,
+                            writer,
+                        )?;
                     } else {
                         return Err(Details::NoEntryInLookupTable(
                             name.clone(),
